@@ -326,34 +326,54 @@ def _root_.Pyttb.RPart.isInt : RPart → Bool
   | .int _ => true
   | _ => false
 
+/-- The key element is the full slice `:` (`tt_renumber` leaves such a mode as it is). -/
+def _root_.Pyttb.RPart.isFullSlice : RPart → Bool
+  | .slice none none none => true
+  | _ => false
+
+/-- An index list with an entry beyond the extent (`tt_renumberdim` cannot build its map). -/
+def _root_.Pyttb.RPart.listBeyond (ext : Nat) : RPart → Bool
+  | .list is => is.any (· ≥ ext)
+  | _ => false
+
+/-- Shape of a region result: integer modes are dropped, a full slice keeps the extent,
+any other slice / an index list has as many entries as it selects (`tt_renumber`). -/
+def keptShapeOf : List Nat → List RPart → List (List Nat) → List Nat
+  | e :: es, p :: ps, l :: ls =>
+    if p.isInt then keptShapeOf es ps ls
+    else (if p.isFullSlice then e else l.length) :: keptShapeOf es ps ls
+  | _, _, _ => []
+
+/-- `tt_renumber` on one stored subscript of the region, integer modes dropped
+(`subs[:, kpdims]`): a full slice keeps the coordinate, otherwise it becomes its position
+in the index list of its mode. -/
+def renumberRow : List RPart → List (List Nat) → List Nat → List Nat
+  | p :: ps, l :: ls, x :: r =>
+    if p.isInt then renumberRow ps ls r
+    else (if p.isFullSlice then x else renumberCoord l false x) :: renumberRow ps ls r
+  | _, _, _ => []
+
 /-- `__getitem__`, Case 1 after the key was rewritten (`parts'`) and turned into index
 lists (`idx`): `subdims` selects the stored entries, `tt_renumber` renumbers them, integer
 modes are dropped; with nothing kept the stored value (or 0) comes back as a scalar. -/
 def regionRead [Zero α] (S : Sparse α) (parts' : List RPart) (idx : List (List Nat)) :
     Except Reject (SpReadOut α) :=
-  let n := S.shape.length
   let loc := if S.subs.isEmpty then [] else S.subdims idx
   let sel := S.takeAt loc
-  let isInt (d : Nat) : Bool := (parts'.getD d (.int 0)).isInt
-  let isAll (d : Nat) : Bool := match parts'.getD d (.int 0) with | .slice none none none => true | _ => false
   -- tt_renumber: building the index map of a list fails for an entry beyond the extent
-  if !sel.subs.isEmpty ∧ (List.range n).any (fun d => match parts'.getD d (.int 0) with
-      | .list is => is.any (· ≥ S.shape.getD d 0) | _ => false) then .error .reject
+  if !sel.subs.isEmpty ∧ (parts'.zip S.shape).any (fun pe => pe.1.listBeyond pe.2) then
+    .error .reject
+  else if parts'.all RPart.isInt then
+    match sel.vals with
+    | [] => .ok (.scalar 0)
+    | [v] => .ok (.scalar v)
+    | vs => .ok (.vec vs)
   else
-    let kp := (List.range n).filter fun d => !isInt d
-    if kp.isEmpty then
-      match sel.vals with
-      | [] => .ok (.scalar 0)
-      | [v] => .ok (.scalar v)
-      | vs => .ok (.vec vs)
+    let newshape := keptShapeOf S.shape parts' idx
+    if sel.subs.isEmpty then
+      if newshape.any (· == 0) then .error .reject else .ok (.tensor ⟨newshape, [], []⟩)
     else
-      let newshape := kp.map fun d => if isAll d then S.shape.getD d 0 else (idx.getD d []).length
-      if sel.subs.isEmpty then
-        if newshape.any (· == 0) then .error .reject else .ok (.tensor ⟨newshape, [], []⟩)
-      else
-        let subs := sel.subs.map fun r => kp.map fun d =>
-          if isAll d then r.getD d 0 else renumberCoord (idx.getD d []) false (r.getD d 0)
-        .ok (.tensor ⟨newshape, subs, sel.vals⟩)
+      .ok (.tensor ⟨newshape, sel.subs.map (renumberRow parts' idx), sel.vals⟩)
 
 /-- `sptensor.__getitem__`. -/
 def getItem [Zero α] [BEq α] (S : Sparse α) (key : Key) : Except Reject (SpReadOut α) :=
